@@ -251,8 +251,8 @@ CLAIMED.update({
             "colour/italics/underline per character, top row from the region origin, and every begin/end proved (SMT, for every "
             "n0) to lie in the transmission window [n0+i, n0+i+1]/rate of the word that triggers the change; text_align "
             "configurations in the thorough tier.",
-    "note": "SmpteTimeCode.parse/add_frames/to_temporal_offset are cut at their contract in symbolic runs (decided by C12); one "
-            "SCC line per file; roll-up and paint-on are compared run by run in their final state (the reader's line granularity "
+    "note": "SmpteTimeCode.parse/add_frames/to_temporal_offset are cut at their contract in symbolic runs (decided by C12); 1-3 "
+            "SCC lines per file; roll-up and paint-on are compared run by run in their final state (the reader's line granularity "
             "is reported as known finding F-C08-4); columns inside a row, background attributes, roll-up base rows other than 15 "
             "are outside. Known findings F-C08-1..7 (frame accounting of doubled codes, EDM + 1 frame, composing over flipped "
             "memory, early roll-up/paint-on text, blank roll-up line, paint-on row clearing) are reported, not suppressed classes "
